@@ -235,11 +235,23 @@ package tracker
 //@   ensures #no-keys (forall id uint64 :: !has(result.Progress, id)) && (forall id uint64 :: !has(result.Votes, id)) && (forall id uint64 :: !has(result.Voters[0], id))
 //@        && fresh(result.Progress) && fresh(result.Votes) && fresh(result.Voters[0])
 
-//@ -- Visit calls f(id, p.Progress[id]) for every key of p.Progress in ascending id order (see DESIGN §2.2 "iterates").
+//@ -- Visit calls f(id, p.Progress[id]) for every key of p.Progress in ascending id order (see DESIGN §2.2 "iterates", §12.1).
+//@ -- Callers are verified against this promise; the body is verified against it with a ghost log of the callback
+//@ -- invocations (ncalls(), callid(i)): exactly len(p.Progress) invocations, strictly ascending keys of the map as of the call,
+//@ -- each with the map's current value. The callback itself is arbitrary code.
 //@ func tracker.ProgressTracker.Visit [C19]
-//@   trusted
 //@   iterates p.Progress
 //@   requires p != nil
+//@   loop 1 invariant #fill 0 <= iter && iter <= len(ids) && n == len(ids) - iter && len(ids) == old(len(p.Progress)) && fresh(ids) && p.Progress == old(p.Progress)
+//@        && ncalls() == 0
+//@   loop 1 invariant #filled forall a int :: {elem(ids, a)} ids.off + (len(ids) - iter) <= a && a < ids.off + len(ids) ==> elem(ids, a) == key(len(ids) - 1 - (a - ids.off))
+//@   loop 1 invariant #filled-keys forall a int :: {elem(ids, a)} ids.off + (len(ids) - iter) <= a && a < ids.off + len(ids) ==> has(p.Progress, elem(ids, a))
+//@   loop 1 invariant #filled-distinct forall a int, b int :: {elem(ids, a), elem(ids, b)} ids.off + (len(ids) - iter) <= a && a < b && b < ids.off + len(ids) ==> elem(ids, a) != elem(ids, b)
+//@   loop 1 invariant #dom-kept forall id uint64 :: has(p.Progress, id) == old(has(p.Progress, id))
+//@   loop 2 invariant #log 0 <= iter && iter <= len(ids) && ncalls() == iter && len(ids) == old(len(p.Progress))
+//@   loop 2 invariant #logged forall i int :: {callid(i)} 0 <= i && i < iter ==> callid(i) == elem(ids, ids.off + i)
+//@   loop 2 invariant #ascending forall a int, b int :: {elem(ids, a), elem(ids, b)} ids.off <= a && a < b && b < ids.off + len(ids) ==> elem(ids, a) < elem(ids, b)
+//@   loop 2 invariant #keys forall q int, k uint64 :: {elem(ids, q), old(has(p.Progress, k))} ids.off <= q && q < ids.off + len(ids) && k == elem(ids, q) ==> old(has(p.Progress, k))
 
 //@ spec activeCnt(p *ProgressTracker, c quorum.MajorityConfig) int := cnt(c, id :: has(p.Progress, id) && !p.Progress[id].IsLearner && p.Progress[id].RecentActive)
 //@ pred majActive(p *ProgressTracker, c quorum.MajorityConfig) := len(c) == 0 || activeCnt(p, c) >= len(c) / 2 + 1
